@@ -242,6 +242,11 @@ def gen_points(rng, n, style):
         elif style == 1:                                   # clustered
             c = [0.2 + 0.6 * ((i * 7 + k * 3) % 5) / 5.0 for k in range(3)]
             p = [min(0.999999, max(0.0, c[k] + 0.05 * (rng.uniform() - 0.5))) for k in range(3)]
+        elif style == 4:                                   # one compact cluster in a corner: most buckets are empty
+            if i == 0:
+                gen_points.corner = [rng.below(2) for _ in range(3)]
+            cc = gen_points.corner
+            p = [(0.999999 - 0.18 * rng.uniform()) if cc[k] else 0.18 * rng.uniform() for k in range(3)]
         elif style == 2:                                   # lattice points: many equal distances
             p = [(rng.below(8) + 0.5) / 8.0 + 1e-3 * rng.uniform() for _ in range(3)]
         else:                                              # close to the box faces
@@ -274,7 +279,10 @@ def gen_octree(rng, idx, quick):
 def gen_locations(rng, idx, quick):
     n = [1, 2, 10, 64, 300, 1000][rng.below(6)]
     npc = [1, 2, 5, 10, 100][rng.below(5)]
-    style = rng.below(4)
+    style = rng.below(5)
+    if style == 4:
+        n = [64, 300, 270][rng.below(3)]
+        npc = [10, 34, 100][rng.below(3)]
     pts = gen_points(rng, n, style)
     lines = ["PL %d %d" % (n, npc)]
     for p in pts:
@@ -287,6 +295,13 @@ def gen_locations(rng, idx, quick):
         lines.append("QP %s %s %s" % (hexd(c[0]), hexd(c[1]), hexd(c[2])))
         r = [0.01, 0.1, 0.5, 2.0][rng.below(4)] * (0.5 + rng.uniform())
         lines.append("QR %d %s" % (rng.below(n), hexd(r)))
+    # a lattice of queries: with clustered / sparse generators many of them start in an empty bucket and force the search to grow to
+    # its maximum range in some direction (the anchor-dependent end block of generalngbiterator::set_max_range is only exercised then)
+    m = (5 if quick else 9) if (style in (1, 4) or n <= 64 or idx % 3 == 0) else 0
+    for i in range(m):
+        for j in range(m):
+            for k in range(m):
+                lines.append("QP %s %s %s" % (hexd((i + 0.5) / m), hexd((j + 0.37) / m), hexd((k + 0.61) / m)))
     return lines, {"n": n, "npc": npc}
 
 
